@@ -45,6 +45,8 @@ type Record struct {
 	Sched  map[string][]int `json:"sched,omitempty"`
 	// FromSeed: regenerate the case from (Seed, Index) instead of replaying streams
 	FromSeed bool `json:"from_seed,omitempty"`
+	// Exhaustive: the failing point of the exhaustively enumerated space, named by Params
+	Exhaustive bool `json:"exhaustive,omitempty"`
 	// GoMaxProcs of the worker that found the case (the simulation does not depend on it, code
 	// that reads runtime.GOMAXPROCS would); the driver replays under the same value
 	GoMaxProcs int `json:"gomaxprocs,omitempty"`
